@@ -399,12 +399,12 @@ func (p *sparser) parseTypeText() string {
 // Contract files
 
 type Clause struct {
-	Props []string
-	Label string
-	Text  string
-	Expr  SExpr
-	Free  bool // assumed, not checked (only for trusted specs)
-	Pkg   string
+	Props  []string
+	Label  string
+	Text   string
+	Expr   SExpr
+	Free   bool // assumed, not checked (only for trusted specs)
+	Pkg    string
 	Induct string // lemma: variable to do induction on
 }
 
@@ -431,39 +431,39 @@ type GhostVar struct {
 }
 
 type Contract struct {
-	Key        string   // function key
-	ParamNames []string // explicit parameter names (external functions); nil = from source
-	Props      []string
-	Requires   []Clause
-	Ensures    []Clause
+	Key            string   // function key
+	ParamNames     []string // explicit parameter names (external functions); nil = from source
+	Props          []string
+	Requires       []Clause
+	Ensures        []Clause
 	EnsuresOnPanic []Clause
-	PanicsWhen []Clause
-	Modifies   []string // raw paths
-	ModifiesAll bool
-	Loops      map[int]*LoopSpec
-	Arith      string // "", "wrap"
-	Trusted    bool
-	MayPanic   bool
-	Inline     bool
-	NoReturn   bool
-	Pure       bool
-	File       string
-	Line       int
-	Pragmas    []string
-	TracedArg  SExpr // traced callees: the key argument recorded in the caller's activation trace
-	TracedRes  SExpr // ... and the result recorded after the call
-	TracedRes2 SExpr // ... and a second result (e.g. the value produced)
-	TracedRes3 SExpr // ... and a third one
-	TracedOptIn bool   // traced only in activations whose contract lists the callee in a `traces` clause
-	Traces     []string // opt-in traced callees (key suffixes) recorded in this function's trace
-	AutoProps  []string // properties owning the generated safety obligations of this function (default: by package)
-	DefaultInv []Clause // invariants for every loop that has no explicit loop clause
+	PanicsWhen     []Clause
+	Modifies       []string // raw paths
+	ModifiesAll    bool
+	Loops          map[int]*LoopSpec
+	Arith          string // "", "wrap"
+	Trusted        bool
+	MayPanic       bool
+	Inline         bool
+	NoReturn       bool
+	Pure           bool
+	File           string
+	Line           int
+	Pragmas        []string
+	TracedArg      SExpr    // traced callees: the key argument recorded in the caller's activation trace
+	TracedRes      SExpr    // ... and the result recorded after the call
+	TracedRes2     SExpr    // ... and a second result (e.g. the value produced)
+	TracedRes3     SExpr    // ... and a third one
+	TracedOptIn    bool     // traced only in activations whose contract lists the callee in a `traces` clause
+	Traces         []string // opt-in traced callees (key suffixes) recorded in this function's trace
+	AutoProps      []string // properties owning the generated safety obligations of this function (default: by package)
+	DefaultInv     []Clause // invariants for every loop that has no explicit loop clause
 	PanicsOnlyWhen []Clause // may_panic functions: every explicit panic must be justified by one of these conditions
-	Captures   []Clause // closures: facts about the captured variables (checked where the closure is created)
-	Likes      []string // templates: contracts whose clauses are copied into this one
-	CallSites  []CallSiteClause
-	Uses       []SCall // lemma / axiom instances to assume
-	Critical   map[int][]Clause
+	Captures       []Clause // closures: facts about the captured variables (checked where the closure is created)
+	Likes          []string // templates: contracts whose clauses are copied into this one
+	CallSites      []CallSiteClause
+	Uses           []SCall // lemma / axiom instances to assume
+	Critical       map[int][]Clause
 }
 
 // CallSiteClause: an assertion attached to the k-th call of a callee inside the function under contract.
@@ -475,18 +475,18 @@ type CallSiteClause struct {
 }
 
 type SpecFile struct {
-	Contracts map[string]*Contract
-	Funs      map[string]*SpecFun
-	FunOrder  []string
-	Ghosts    []GhostVar
-	Axioms    []Clause
-	Lemmas    []Clause
-	TypeInvs  map[string][]Clause // keyed by type text
-	Guarded   []string
+	Contracts       map[string]*Contract
+	Funs            map[string]*SpecFun
+	FunOrder        []string
+	Ghosts          []GhostVar
+	Axioms          []Clause
+	Lemmas          []Clause
+	TypeInvs        map[string][]Clause // keyed by type text
+	Guarded         []string
 	TableExceptions []string
-	OpTable   []OpRow
-	GlobalInvs []Clause
-	Pragmas   []string // every "trusted"/"assume"-like pragma seen (for the evidence)
+	OpTable         []OpRow
+	GlobalInvs      []Clause
+	Pragmas         []string // every "trusted"/"assume"-like pragma seen (for the evidence)
 }
 
 // OpRow: one row of the operator table of property C03 (pragma `optable LEVEL ASSOC: TOKENS`).
@@ -617,7 +617,7 @@ func loadSpecFile(path string, sf *SpecFile) error {
 			if cur == nil {
 				return fail(fmt.Errorf("traces outside func"))
 			}
-			cur.Traces = append(cur.Traces, strings.Fields(rest)...)
+			cur.Traces = append(cur.Traces, fieldsQuoted(rest)...)
 		case "traced", "traced_optin":
 			// traced ARGEXPR [-> RESEXPR]; traced_optin: only in the traces of callers that name the callee in a `traces` clause
 			if cur == nil {
@@ -758,6 +758,17 @@ func loadSpecFile(path string, sf *SpecFile) error {
 				return fail(fmt.Errorf("callsite outside func"))
 			}
 			f := strings.Fields(rest)
+			if strings.HasPrefix(strings.TrimSpace(rest), "\"") {
+				// "quoted callee key" (function-type keys contain spaces)
+				fq := fieldsQuoted(rest)
+				if len(fq) >= 2 {
+					f = append([]string{fq[0], fq[1]}, "x")
+					rest = strings.TrimSpace(rest)
+					rest = "Q " + strings.TrimSpace(rest[len(fq[0])+2:])
+					f[0] = fq[0]
+					f = []string{fq[0], fq[1], "x"}
+				}
+			}
 			if len(f) < 3 {
 				return fail(fmt.Errorf("callsite CALLEE ORDINAL expr"))
 			}
@@ -773,7 +784,11 @@ func loadSpecFile(path string, sf *SpecFile) error {
 				}
 				ord = k
 			}
-			body := strings.TrimSpace(strings.TrimPrefix(strings.TrimSpace(strings.TrimPrefix(rest, f[0])), f[1]))
+			first := f[0]
+			if strings.HasPrefix(rest, "Q ") {
+				first = "Q"
+			}
+			body := strings.TrimSpace(strings.TrimPrefix(strings.TrimSpace(strings.TrimPrefix(rest, first)), f[1]))
 			c, err := parseClause(body, cur.Props)
 			if err != nil {
 				return fail(err)
@@ -948,4 +963,28 @@ func loadSpecFile(path string, sf *SpecFile) error {
 		}
 	}
 	return nil
+}
+
+// fieldsQuoted: strings.Fields, except that a "double quoted" segment is one field (function-type keys contain spaces).
+func fieldsQuoted(s string) []string {
+	var out []string
+	for {
+		s = strings.TrimSpace(s)
+		if s == "" {
+			return out
+		}
+		if s[0] == '"' {
+			if j := strings.Index(s[1:], "\""); j >= 0 {
+				out = append(out, s[1:1+j])
+				s = s[j+2:]
+				continue
+			}
+		}
+		j := strings.IndexAny(s, " \t")
+		if j < 0 {
+			return append(out, s)
+		}
+		out = append(out, s[:j])
+		s = s[j:]
+	}
 }
